@@ -119,7 +119,7 @@ def step(variant):
                        (acc_c == W.acc(W.hc) - whole * E, 'the fraction is kept for later', 'ClaimRewards:fraction'),
                        (p['P'] == W.prev_reward_balance - whole, 'recorded balance reduced by the payout', 'ClaimRewards:recorded')]
             ctx.require_all(st, cl, W.mv)
-            ctx.witness('%s on two distinct holders' % variant, st, [W.distinct(), W.hc['present'], W.ho['present']], W.mv)
+            ctx.witness('%s on two distinct holders' % variant, st, [W.distinct(), W.hc['present'], W.ho['present']], W.mv, expect='ok')
             ctx.witness('%s with aliasing holders' % variant, st, [z3.Not(W.distinct())], W.mv)
         ctx.need_witness('Ok path of ' + variant, nok > 0)
         ctx.expect_witness('distinct-holders region (%s)' % variant, 'two distinct holders')
